@@ -395,14 +395,14 @@ def summaries(repo):
 _cache = {}
 
 
-def r5(repo, rep, modules=("simulation", "analytic"), extra=()):
+def r5(repo, rep, modules=("simulation", "analytic"), extra=(), rhs_only=False):
     rep.rule("R5", "no public simulator / ODE entry point stores into, deletes from, reshapes, "
                    "augments in place or calls a mutator on an object that may alias one of its "
                    "arguments, directly or through any package function it calls (flow-sensitive "
                    "alias walk + bottom-up effect summaries)")
     summ, details = summaries(repo)
     n = 0
-    for m in modules:
+    for m in ([] if rhs_only else modules):
         for f in sorted(repo.public_functions(m), key=lambda x: x.name):
             if not in_scope(f):
                 continue
@@ -427,8 +427,26 @@ def r5(repo, rep, modules=("simulation", "analytic"), extra=()):
                 if p.startswith("<module"):
                     for e in es:
                         rep.ob("R5", False, "%s %s" % (f.name, p), detail=e.what, func=f, node=e.node)
+    # right-hand sides of the ODE systems: the state vector (and time) they are handed belong to the integrator; a write
+    # through a view of it (`tmp = Sk[:]; tmp[tmp == 0] = 1`) changes the solution under the solver
+    nrhs = 0
+    if "analytic" in modules:
+        import re as _re
+        for f in sorted(repo.all_funcs(), key=lambda x: x.qual):
+            if f.module != "analytic" or f.parent is not None or not _re.fullmatch(r"_d[A-Z]\w*_", f.name) or not f.params:
+                continue
+            nrhs += 1
+            rep.analysed(f)
+            es = [e for e in details.get(f.qual, []) if e.param == f.params[0]]
+            if not es:
+                rep.ob("R5", True, "%s(%s)" % (f.name, f.params[0]), func=f, node=f.node, construct="state vector %s unmodified" % f.params[0])
+            for e in es:
+                rep.ob("R5", False, "%s(%s)" % (f.name, f.params[0]), func=f, node=e.node, construct="%s: %s" % (f.params[0], short(e.node, 80)),
+                       detail="the right-hand side writes into the state vector the integrator passed it: %s" % e.what)
+        rep.floor("R5", "ODE right-hand sides analysed", nrhs, 15)
     # module-level state written from functions
-    rep.floor("R5", "public entry points analysed", n, 80 if "analytic" in modules else 20)
+    if not rhs_only:
+        rep.floor("R5", "public entry points analysed", n, 80 if "analytic" in modules else 20)
 
 
 # ---------------------------------------------------------------------------
